@@ -419,6 +419,12 @@ def run(prog, ctx):
                       "upper-triangle store has its mirrored companion (%s)" % detail,
                       "`%s` inside a j >= i loop has no mirrored store %s[j][i] with the same value: the matrix is not symmetric"
                       % (src(st), m))
+        for k, (loop, ok, detail) in enumerate(R.triangle_coverage_report(fi)):
+            ctx.check(ok, "C20.D3", R.key_of(fi, "whole-triangle#%d" % k), fi.loc(loop),
+                      "the triangular loop pair enumerates every pair j >= i (%s)" % detail,
+                      "the inner loop `for %s in %s` stops before the end of the index range of the outer loop (%s): entries outside that band "
+                      "keep their initial value although hats that are neighbours in an earlier dimension lie arbitrarily far apart in the "
+                      "linear index" % (loop.target.id, src(loop.iter), detail))
         if not rep:
             ctx.violation("C20.D3", R.key_of(fi, "symmetric:none"), fi.loc(),
                           "no element store of the form M[i][j] = v inside the triangular loop was found: the lower triangle is never filled")
